@@ -663,15 +663,15 @@ func ruleReadersIgnoreBuffers(r *Report) {
 		return false
 	}
 	for _, rc := range L.Roots {
-		if !isReaderRoot(rc.Root) {
+		if !isReaderRoot(fnName(rc.Fn)) {
 			continue
 		}
 		w := L.ReachAvoiding([]*LCtx{rc}, func(c *LCtx) bool { return fnName(c.Fn) == "(*commit.Reader).Next" }, nil)
 		if w != nil {
-			o := h.Bad(rc.Root, "-", "a reading API decodes a transaction buffer: its result depends on uncommitted changes")
+			o := h.Bad(fnName(rc.Fn), "-", "a reading API decodes a transaction buffer: its result depends on uncommitted changes")
 			o.Path = w.PathNames()
 		} else {
-			h.OK(rc.Root, "-", "")
+			h.OK(fnName(rc.Fn), "-", "")
 		}
 	}
 }
